@@ -1,7 +1,7 @@
 (* Corr/C08.v — correspondence glue: runs Model/ConnState.v on a history that the Go harness drove through the real
    connstate.Store / SessionManager instances of several nodes over one shared storage, and compares FindClientNode
    for every client, as answered on every node, after EVERY event.
-   case value: [ variant [guard; refresh_idx; hb; ptr; cas (mode 2 only: index test-and-write is one CompareAndSwap)] ; backend [ptr; incl] ; ttl ; mode (0 store | 1 session) ;
+   case value: [ variant [guard; refresh_idx; hb; ptr; cas (mode 2 only: index test-and-write is one CompareAndSwap); scas (mode 3 only: the client-state service uses CompareAndSwap)] ; backend [ptr; incl] ; ttl ; mode (0 store | 1 session) ;
                  clients [x ...] ; ops [[code; a; b; c; d] ...] ; obs [ per op: [ per node: [ per client: [kind; n; c] ] ] ] ]
    kind: 0 = not found / expired, 1 = found (n, c), 2 = any other error.  Tick durations are in ms.
    Session code 7 (StaleSweep n c: the node's periodic sweep finds control connection c silent beyond the heartbeat
@@ -163,25 +163,29 @@ Definition dec_rprog (v : tval) : rprog :=
   let n := vn (vnth 1 v) in let c := vn (vnth 2 v) in let x := vn (vnth 3 v) in
   match vn (vnth 0 v) with
   | 4 => RConnect x n c
-  | 5 => REnsure x n c
-  | 6 => RDisc x n c
+  | 5 => REnsure x n c 0
+  | 6 => RDisc x n c 0
   | _ => RDone
   end.
-Definition rseq (sh : rstate) (p : rprog) : rstate :=
-  let '(p1, s1) := rstep p sh in let '(_, s2) := rstep p1 s1 in s2.
-Definition state_final (ops : tval) : rstate :=
-  let sh0 := fold_left rseq (map dec_rprog (vl (vnth 0 ops))) rs_empty in
-  fst (rrun (sh0, map dec_rprog (vl (vnth 1 ops))) (map vnat (vl (vnth 2 ops)))).
-Definition check_state_conc (clients : list N) (ops obs : tval) : bool :=
-  let sh := state_final ops in
-  forallb (fun node_obs => all2 fres_eqb (map (fun x => rs_of (sh x)) clients) (vl node_obs)) (vl obs).
+Fixpoint rseq_fuel (k : nat) (cas : bool) (p : rprog) (sh : rshared) : rshared :=
+  match k with
+  | O => sh
+  | S k' => let '(p', sh') := rstep cas p sh in rseq_fuel k' cas p' sh'
+  end.
+Definition rseq (cas : bool) (sh : rshared) (p : rprog) : rshared := rseq_fuel 8 cas p sh.
+Definition state_final (cas : bool) (ops : tval) : rshared :=
+  let sh0 := fold_left (rseq cas) (map dec_rprog (vl (vnth 0 ops))) rsh_empty in
+  fst (rrun cas (sh0, map dec_rprog (vl (vnth 1 ops))) (map vnat (vl (vnth 2 ops)))).
+Definition check_state_conc (cas : bool) (clients : list N) (ops obs : tval) : bool :=
+  let sh := state_final cas ops in
+  forallb (fun node_obs => all2 fres_eqb (map (fun x => rs_of (rloc sh x)) clients) (vl node_obs)) (vl obs).
 
 Definition check (c : tval) : bool :=
   let v := dec_variant (vnth 0 c) in
   let b := dec_backend (vnth 1 c) in
   let ttl := vn (vnth 2 c) in
   let clients := map vn (vl (vnth 4 c)) in
-  if vn (vnth 3 c) =? 3 then check_state_conc clients (vnth 5 c) (vnth 6 c) else
+  if vn (vnth 3 c) =? 3 then check_state_conc (vbool (vnth 5 (vnth 0 c))) clients (vnth 5 c) (vnth 6 c) else
   if vn (vnth 3 c) =? 2 then check_conc (vbool (vnth 4 (vnth 0 c))) clients (vnth 5 c) (vnth 6 c) else
   if vn (vnth 3 c) =? 0
   then check_store v b ttl clients (0, empty_store) (vl (vnth 5 c)) (vl (vnth 6 c))
@@ -215,7 +219,7 @@ Definition predict (c : tval) : tval :=
   let b := dec_backend (vnth 1 c) in
   let ttl := vn (vnth 2 c) in
   let clients := map vn (vl (vnth 4 c)) in
-  if vn (vnth 3 c) =? 3 then VL (map (fun x => enc_fres_rs (rs_of (state_final (vnth 5 c) x))) clients) else
+  if vn (vnth 3 c) =? 3 then VL (map (fun x => enc_fres_rs (rs_of (rloc (state_final (vbool (vnth 5 (vnth 0 c))) (vnth 5 c)) x))) clients) else
   if vn (vnth 3 c) =? 2 then predict_conc (vbool (vnth 4 (vnth 0 c))) clients (vnth 5 c) else
   if vn (vnth 3 c) =? 0
   then VL (predict_store v b ttl clients (0, empty_store) (vl (vnth 5 c)))
